@@ -110,7 +110,7 @@ func c23Check(s *uix.Session, c c23Case, before []string, beforeKey string) *eng
 
 func c23Replay(c c23Case) (*uix.Session, *eng.Fail) {
 	p := progByName(c.Prog)
-	s, err := uix.New(p.Segs, p.Entry)
+	s, err := newSession(p)
 	if err != nil {
 		return nil, nil
 	}
@@ -139,9 +139,9 @@ func init() {
 		Rule: "explicit-state BFS to closure over 'move N M' for EVERY pair of line numbers 0..Len+1 on the 3-block program with blocks of 3, 2 and 4 instructions on the loop-with-gap program (blocks of 1, 3, 1) and on a program with blocks of 2, 1, 2 (thorough also: a 4-block program with blocks of 3, 2, 2, 4 and a 5-block program in two segments) (state = block order + per-block instruction order; successor = fresh real UI session + replay + one command line through processCommand). After every command the listing (marks ignored) must equal a fresh lines.NewView of the same code and the structural model (one 'Block <position>: 0x<start>' header per block in current order, instruction lines with text and bytes in current order, single blank separators); a command that leaves the code unchanged leaves the listing unchanged. Plus one long walk per program on a single session (every move pair twice, ~600 commands) with the same oracle after every command. Non-trivial = accepted move.",
 		Run: func(r *eng.Run) {
 			item := 0
-			for _, pn := range deepNames(r, []string{"three-blocks", "loop-with-gap", "sym-blocks"}) {
+			for _, pn := range deepNames(r, []string{"three-blocks", "loop-with-gap", "sym-blocks", "synthetic-long"}) {
 				p := progByName(pn)
-				s0, err := uix.New(p.Segs, p.Entry)
+				s0, err := newSession(p)
 				if err != nil {
 					continue
 				}
@@ -192,9 +192,9 @@ func init() {
 			// long-lived walk: ONE session per program executes every move pair twice in a fixed
 			// order (accepted and rejected ones), so hidden state accumulated over a long history
 			// (marks, block starts) is exercised; the oracle runs after every command.
-			for _, pn := range deepNames(r, []string{"three-blocks", "loop-with-gap", "sym-blocks"}) {
+			for _, pn := range deepNames(r, []string{"three-blocks", "loop-with-gap", "sym-blocks", "synthetic-long"}) {
 				p := progByName(pn)
-				s0, err := uix.New(p.Segs, p.Entry)
+				s0, err := newSession(p)
 				if err != nil {
 					continue
 				}
